@@ -666,6 +666,84 @@ theorem ubytes_ok (lim : Nat) : CodecOK (Atom.ubytes.codec lim) := by
   · intro hg; simp [Atom.codec] at hg
   · intro hg; simp [Atom.codec] at hg
 
+theorem cbytes_ok (lim : Nat) : CodecOK (Atom.cbytes.codec lim) := by
+  constructor
+  · intro st k v rest hc
+    cases v <;> simp [Atom.codec, isBytes] at hc
+    simp only [Atom.codec]
+    rw [List.append_assoc, readU64_append hc]
+    simp only; rw [takeN_append]; rfl
+  · intro v hc
+    cases v <;> simp [Atom.codec, isBytes] at hc
+    simp [Atom.codec, u64le_length]
+  · intro st k v p q hc h hq
+    cases v <;> simp [Atom.codec, isBytes] at hc
+    simp only [Atom.codec] at h ⊢
+    rcases prefix_split h with ⟨q', h1, hq'⟩ | ⟨p', h1, h2⟩
+    · have hl := prefix_len_lt h1 hq'
+      rw [u64le_length] at hl
+      rw [readU64_short hl]; exact ⟨_, rfl⟩
+    · subst h1
+      rw [readU64_append hc]
+      simp only
+      have hl := prefix_len_lt h2 hq
+      rw [takeN_short hl]; exact ⟨_, rfl⟩
+  · intro st k bs v rest h
+    simp only [Atom.codec] at h ⊢
+    split at h
+    · rename_i n r1 h1
+      obtain ⟨hb, hn⟩ := readU64_ok h1
+      simp only [okBytes] at h
+      split at h
+      · rename_i a r h2
+        obtain ⟨hb2, hl⟩ := takeN_ok h2
+        injection h with h; injection h with e1 e2; subst e1; subst e2
+        refine ⟨by simp [isBytes]; omega, u64le n ++ a, by rw [hb, hb2]; simp, by simp [u64le_length]⟩
+      · cases h
+    · cases h
+  · intro k bs v rest h
+    simp only [Atom.codec] at h ⊢
+    split at h
+    · rename_i n r1 h1
+      obtain ⟨hb, hn⟩ := readU64_ok h1
+      simp only [okBytes] at h
+      split at h
+      · rename_i a r h2
+        obtain ⟨hb2, hl⟩ := takeN_ok h2
+        injection h with h; injection h with e1 e2; subst e1; subst e2
+        simp only; rw [hb, hb2, hl]; simp
+      · cases h
+    · cases h
+  · intro k bs r h; exact h
+  · intro _ st k bs
+    simp only [Atom.codec]
+    split
+    · simp only [okBytes]
+      split
+      · simp
+      · rename_i e h2; have := (takeN_error h2).1; subst this; simp
+    · rename_i e h1; have := (readU64_error h1).1; subst this; simp
+  · intro _ k bs v rest h
+    simp only [Atom.codec] at h ⊢
+    split at h
+    · rename_i n r1 h1
+      obtain ⟨hb, hn⟩ := readU64_ok h1
+      simp only [okBytes] at h
+      split at h
+      · rename_i a r h2
+        obtain ⟨hb2, hl⟩ := takeN_ok h2
+        injection h with h; injection h with e1 e2; subst e2
+        rw [hb, hb2]; simp [u64le_length]; omega
+      · cases h
+    · cases h
+  · intro _ k bs
+    simp only [Atom.codec]
+    split
+    · rename_i n r1 h1
+      obtain ⟨hb, hn⟩ := readU64_ok h1
+      rw [hb]; simp [u64le_length]; omega
+    · omega
+
 theorem atom_ok (lim : Nat) (a : Atom) : CodecOK (a.codec lim) := by
   cases a
   · exact u8_ok lim
@@ -680,5 +758,6 @@ theorem atom_ok (lim : Nat) (a : Atom) : CodecOK (a.codec lim) := by
   · exact sfval1_ok lim
   · exact cur1pad_ok lim
   · exact ubytes_ok lim
+  · exact cbytes_ok lim
 
 end Sia.Codec
